@@ -3,12 +3,12 @@
 # (demo passes without / fails with the change, pinned test-suite unchanged), then run ./vcheck <ID> against /repo with the change applied
 # and undo it straight afterwards.  Nothing is ever committed to /repo.
 set -u
-ID=$1; TIER=${2:-quick}
-V=/verif; SRC=/tmp/wt/$ID/SEED; DST=$V/seeded/$ID
+ID=$1; TIER=${2:-quick}; VAR=${3:-}
+V=/verif; SRC=/tmp/wt/$ID/SEED; DST=$V/seeded/$ID$VAR
 mkdir -p $DST
 if [ -f $SRC/patch.diff ]; then cp $SRC/patch.diff $SRC/demo.py $DST/ 2>/dev/null; cp $SRC/notes.md $DST/notes.md 2>/dev/null; fi
 [ -f $DST/patch.diff ] || { echo "no patch for $ID"; exit 2; }
-W=/var/tmp/seedwt_$ID
+W=/var/tmp/seedwt_$ID$VAR
 git -C /repo worktree remove --force $W 2>/dev/null; rm -rf $W
 git -C /repo worktree add -q --detach $W HEAD
 mkdir -p $W/SEED; cp $DST/demo.py $W/SEED/
@@ -25,10 +25,10 @@ out=$(cd $V && ./vcheck $ID --tier $TIER 2>&1); rc=$?
 git -C /repo checkout -- .
 echo "$out" | grep -E "tier=|^VIOLATION|^HARNESS-ERROR|^KNOWN" | head -6 | cut -c1-220
 echo "$ID vcheck($TIER) rc=$rc"
-python3 - "$ID" "$rc_clean" "$rc_seeded" "$tests" "$TIER" "$rc" <<'PY'
+python3 - "$ID" "$rc_clean" "$rc_seeded" "$tests" "$TIER" "$rc" "$VAR" <<'PY'
 import json, sys, os
-ID, rc_clean, rc_seeded, tests, tier, rc = sys.argv[1:]
-p = '/verif/seeded/%s/meta.json' % ID
+ID, rc_clean, rc_seeded, tests, tier, rc, var = sys.argv[1:]
+p = '/verif/seeded/%s%s/meta.json' % (ID, var)
 meta = json.load(open(p)) if os.path.exists(p) else {}
 meta.update({'property': ID, 'demo_exit_unchanged': int(rc_clean), 'demo_exit_with_change': int(rc_seeded), 'pinned_tests': tests})
 meta.setdefault('runs', {})[tier] = {'vcheck_exit': int(rc), 'detected': int(rc) == 1}
